@@ -129,8 +129,38 @@ func textSuite() Suite {
 	}
 }
 
+// interop: go-whisper reads what whispertool wrote and the other way round
+func interopSuite() Suite {
+	return Suite{
+		Name:   "interop",
+		MkExec: func() Executor { return NewImplLib() },
+		Canon:  canonObs,
+		Gen: func(r *Rng, i int, tier string) []Op {
+			if i%2 == 0 {
+				if ops := genGwCase(r); ops != nil {
+					return ops
+				}
+			}
+			g := newLibGen(r, "C06", i%5 == 4)
+			g.alwaysSync = true
+			ops := g.History(4 + r.Intn(8))
+			ops = append(ops, Op{"sync", true}, Op{"gwmeta", true})
+			ops = append(ops, gwFetchOps(r, g.lay, g.now, 8)...)
+			return ops
+		},
+		Cases: func(tier string) int {
+			if tier == "thorough" {
+				return 3000
+			}
+			return 200
+		},
+	}
+}
+
 func suitesFor(prop string) []Suite {
 	switch prop {
+	case "C06":
+		return []Suite{libSuite(prop), interopSuite()}
 	case "C19":
 		return []Suite{textSuite()}
 	case "C07":
@@ -139,7 +169,7 @@ func suitesFor(prop string) []Suite {
 		return []Suite{hostileCodecSuite(), hostileFileSuite()}
 	case "C14":
 		return []Suite{codecSuite()}
-	case "C01", "C02", "C03", "C04", "C05", "C06":
+	case "C01", "C02", "C03", "C04", "C05":
 		return []Suite{libSuite(prop)}
 	}
 	return nil
